@@ -16,7 +16,7 @@ import vparse, vsim, py2syntax, c02_gen
 
 OBLIGATIONS = [
     # the generated tables (real VerilogOperator.getOp / toVerilog) are the ones the proofs assume
-    'C02.ops_table', 'C02.assign_table', 'C02.paren_table',
+    'C02.ops_table', 'C02.assign_table', 'C02.paren_table', 'C02.paren_pairs_table',
     # Python side
     'C02.evalD_eval', 'C02.execD_exec', 'C02.evalD_inDom',
     # expression level
@@ -403,7 +403,8 @@ class Batch:
     def judge(self, jb, lean_out, vr):
         res, d, hist = self.res, jb['dut'], jb['history']
         base = dict(design=d.label, profile=d.profile, tags=sorted(d.features), features=sorted(d.features), src=d.src,
-                    reads_own_output='reads-own-output' in d.features)
+                    reads_own_output='reads-own-output' in d.features,
+                    construct=next((t[7:] for t in d.features if t.startswith('refuse:')), None))
         real, rerr = d.run_real(hist)
         supported, reasons = None, []
         dom = [True] * len(hist)
@@ -765,8 +766,8 @@ def run_all(res, tier, rng, tmpdir, quick):
         bt.add(d, hist, 'witness')
     # ---- (2) repo classes
     covered = set()
-    n_hist = 6 if quick else 60
-    n_cyc = 80 if quick else 400
+    n_hist = 4 if quick else 60
+    n_cyc = 70 if quick else 400
     for label, getter, wires in repo_specs():
         r = rng.fork(('repo', label))
         for hi in range(n_hist):
@@ -809,7 +810,7 @@ def run_all(res, tier, rng, tmpdir, quick):
         if not hit:
             res.notes.append(f'witness {cname} no longer reproduces {fid} (defect fixed or behaviour changed)')
     # ---- (4) generated classes
-    n_gen = dict(safe=220, wild=160, refuse=len(c02_gen.REFUSE_KINDS)) if quick else dict(safe=4000, wild=2500, refuse=5 * len(c02_gen.REFUSE_KINDS))
+    n_gen = dict(safe=110, wild=90, refuse=len(c02_gen.REFUSE_KINDS)) if quick else dict(safe=4000, wild=2500, refuse=5 * len(c02_gen.REFUSE_KINDS))
     chunk = 40
     idx = 0
     for profile in ('safe', 'wild', 'refuse'):
@@ -860,6 +861,30 @@ def run_all(res, tier, rng, tmpdir, quick):
                     bt.add(d, hist, 'gen')
             if len(bt.jobs) >= 1500:
                 bt.run()
+        bt.run()
+    # ---- (5) nesting / precedence stream: every ordered pair of operators, nested left and right, operand triples on which the
+    #          two groupings differ (inside the domain)
+    ncl = c02_gen.gen_nest_classes(rng.fork('nest'))
+    c02_gen.write_module(tmpdir, 'c02_gen_nest', ncl)
+    try:
+        nmod = c02_gen.load_module(tmpdir, 'c02_gen_nest')
+    except SyntaxError as e:
+        res.broken.append(('correspondence', 'generator', f'nest module does not compile: {e}'))
+        nmod = None
+    if nmod is not None:
+        for c in ncl:
+            wires = [(n, w, 'in') for n, w in c['ins']] + [(n, w, 'out') for n, w in c['outs']]
+            try:
+                d = Dut(f'gen/nest/{c["name"]}', getattr(nmod, c['name']), wires, src=c['src'], tags=c['tags'], profile='nest')
+            except Exception as e:
+                res.broken.append(('correspondence', 'nest-build', f'{c["name"]}: {type(e).__name__}: {e}'))
+                continue
+            if d.syntax is None:
+                res.disagree('py2syntax', dict(design=d.label, error=d.syntax_err))
+            res.hist('nest_expressions', 'total', len(c['exprs']))
+            res.hist('nest_expressions', 'with-distinguishing-vectors', sum(1 for e in c['exprs'] if e['n_diff']))
+            hist = c['history'] if quick else c['history'] * 2 + mk_history(rng.fork(('nesth', c['name'])), d, 200, 'dom')
+            bt.add(d, hist, 'nest')
         bt.run()
 
 
